@@ -1740,6 +1740,11 @@ def feasible_reach(body, starts, avoid=()):
                     fd[tgt] = rv[3]["vi"]
                 elif rv[0] == "use" and rv[1][0] in ("c", "m") and len(rv[1][1]) == 1 and rv[1][1][0] in fd:
                     fd[tgt] = fd[rv[1][1][0]]
+                elif rv[0] == "use" and rv[1][0] == "k" and "v" in rv[1][1] and rv[1][1].get("ty") == "bool":
+                    fd[tgt] = ("b", int(rv[1][1]["v"]))
+                elif rv[0] == "un" and rv[1] == "Not" and rv[2][0] in ("c", "m") and len(rv[2][1]) == 1 and \
+                        isinstance(fd.get(rv[2][1][0]), tuple):
+                    fd[tgt] = ("b", 1 - fd[rv[2][1][0]][1])
                 else:
                     fd.pop(tgt, None)
             else:
@@ -1752,10 +1757,14 @@ def feasible_reach(body, starts, avoid=()):
         succ = body.succ[b]
         if t[0] == "switch" and t[1][0] in ("c", "m") and len(t[1][1]) == 1 and t[1][1][0] in discr:
             src = discr[t[1][1][0]]
-            if src in fd:
+            if src in fd and not isinstance(fd[src], tuple):
                 v = str(fd[src])
                 hit = [x for val, x in t[2] if val == v]
                 succ = hit if hit else [t[3]]
+        elif t[0] == "switch" and t[1][0] in ("c", "m") and len(t[1][1]) == 1 and isinstance(fd.get(t[1][1][0]), tuple):
+            v = str(fd[t[1][1][0]][1])
+            hit = [x for val, x in t[2] if val == v]
+            succ = hit if hit else [t[3]]
         elif t[0] == "call":
             c = body.call_at.get(b)
             if c is not None:
